@@ -289,7 +289,8 @@ class PyGen:
                     if cs.bool():
                         it += self.test()
                 items.append(it)
-            elif k == 5 and not self.excluded('C01-F1'):
+            elif k == 5:
+                # (listed finding C01-F1 is only about a *lone* starred index without a comma: see the end of this function)
                 self.feat('star_subscript')
                 items.append([tk('*')] + self.sub('bor'))
             elif k == 3:
@@ -302,8 +303,8 @@ class PyGen:
                 ts.append(tk(','))
             ts += a
         if len(items) == 1 and items[0][0].s == '*':
-            ts.append(tk(','))  # x[*a,]; a lone starred subscript x[*a] is excluded above (open finding) unless allowed
-            if cs.bool(128) and 'C01-F1' not in self.avoid:
+            ts.append(tk(','))  # x[*a,]; the lone starred subscript x[*a] only where listed finding C01-F1 is not avoided
+            if cs.bool(128) and not self.excluded('C01-F1'):
                 ts.pop()
         elif cs.bool(24):
             ts.append(tk(','))
